@@ -60,7 +60,7 @@ CLAIMS = {
              'table, requested spikes in any order): the value at (spike, channel/template) of a stored requested spike is the stored value of THE stored row of that spike in the column naming that channel, else zero. '
              'BOUNDED only: the PCA fallback from extracted waveforms, more than one trailing dimension, what unstored requested spikes get (get_template_features: known finding), real files.',
         note='Assumed: the rank-2/3 NumPy theory of pyvc/mat.py (shape, zeros/empty, tile, elementwise isin/mask assignment, scatter with index matrices and row scatter where one writer wins on collisions, column slices, '
-             'row gather; a rank-3 array is a matrix whose cells are opaque trailing vectors), the flatten/reshape bijection (A-FLAT) through which the proved 1-D contract of _index_of is read for a flattened matrix, integer '
+             'row gather; a rank-3 array is a matrix whose cells are opaque trailing vectors), the flatten/reshape bijection (A-FLAT: a flattened view keeps the element of (s, j); _index_of is PROVED on its real body for a flattened-matrix argument as well, its final gather tmp[arr] being elementwise), integer '
              'casts keep values (A-NOOVF), reals for floats; np.unique has as many elements as its argument exactly when the argument has no repetition (counting fact) and np.intersect1d returns a strictly increasing '
              'subset argument unchanged (Lean lemma L1). get_template_features with a row table additionally requires increasing requested ids (it returns rows in sorted order).',
         assumptions=['A-LIB rank-2/3 NumPy array theory (pyvc/mat.py)', 'A-LIB 1-D NumPy array theory (pyvc/npth.py)', 'A-FLAT', 'A-NOOVF', 'A-REAL floats as reals']),
